@@ -282,7 +282,13 @@ End Codec.
 Section Custom0.
   Variable O : oracles.
 
-  (* *merkletree.Proof (external library): an oracle gives the canonical re-encoding *)
+  (* *merkletree.Proof (external library) behind verifiable.decodeMTP (mtp_json.go): null /
+     absent -> nil; more than 240 siblings, a null sibling or anything the library
+     rejects -> error; otherwise the library decoder.  The oracle [o_mtp] is the
+     outcome of decodeMTP on the value followed by json.Marshal of the proof (None =
+     error).  IssuerData.UnmarshalJSON decodes every member by reflection into the
+     struct and only "mtp" through decodeMTP (Generated.guarded_structs): that is the
+     generic struct decode with this codec for the mtp field. *)
   Definition dec_mtp (j : json) : res gval :=
     match j with
     | JNull => Ok (VMtp None)
@@ -394,7 +400,12 @@ Section Custom1.
                           | _ => Panic "wire-signature"
                           end
                         else if String.eqb key "mtp" then
-                          match get "mtp" with VMtp p => Ok (VMtp p) | _ => Panic "wire-mtp" end
+                          match get "mtp" with
+                          | VRaw None => Ok (VMtp None)          (* decodeMTP(nil) *)
+                          | VRaw (Some rm) => dec_mtp O rm       (* decodeMTP(obj.MTP) *)
+                          | VMtp p => Ok (VMtp p)                (* wire struct with a *mt.Proof field *)
+                          | _ => Panic "wire-mtp"
+                          end
                         else Panic "unknown-proof-field") (pd_full pd) ;;
               Ok (VKnownProof goname rest)
             | _ => Panic "wire-coreClaim"
